@@ -138,8 +138,23 @@ pub broadcast proof fn lemma_and15(x: usize)
 pub broadcast proof fn lemma_shr4(x: usize)
     ensures #[trigger] (x >> 4) == x / 16,
 { assert((x >> 4) == x / 16) by (bit_vector); }
+pub broadcast proof fn lemma_shr8(x: usize)
+    ensures #[trigger] (x >> 8) == x / 256,
+{ assert((x >> 8) == x / 256) by (bit_vector); }
+pub broadcast proof fn lemma_shr16(x: usize)
+    ensures #[trigger] (x >> 16) == x / 65536,
+{ assert((x >> 16) == x / 65536) by (bit_vector); }
+pub broadcast proof fn lemma_and255(x: usize)
+    ensures #[trigger] (x & 0xff) == x % 256,
+{ assert((x & 0xff) == x % 256) by (bit_vector); }
+pub broadcast proof fn lemma_trunc8(x: usize)
+    ensures #[trigger] (x as u8) == x % 256,
+{ assert((x as u8) == x % 256) by (bit_vector); }
+pub broadcast proof fn lemma_trunc16(x: usize)
+    ensures #[trigger] (x as u16) == x % 65536,
+{ assert((x as u16) == x % 65536) by (bit_vector); }
 pub broadcast group group_be {
-    lemma_and15, lemma_shr4,
+    lemma_and15, lemma_shr4, lemma_shr8, lemma_shr16, lemma_and255, lemma_trunc8, lemma_trunc16,
     lemma_be16_def, lemma_be32_range, lemma_be64_range, lemma_enc16_def, lemma_enc32_len, lemma_enc64_len,
     lemma_be16_enc16, lemma_be16_enc16_only, lemma_be32_enc32, lemma_be32_enc32_only,
     lemma_be64_enc64, lemma_be64_enc64_only, lemma_be16_prefix, lemma_be32_prefix, lemma_be64_prefix,
